@@ -478,7 +478,12 @@ def impl_decode(body, nchan, nsamp, au, dtype, byte_format="01"):
         with warnings.catch_warnings():
             warnings.simplefilter("ignore")
             try:
-                arr = util.read_signal(f, dtype=dtype, force_as="sph")
+                try:
+                    arr = util.read_signal(f, dtype=dtype, force_as="sph")
+                except io.UnsupportedOperation:
+                    # a reader that insists on a seekable stream says so (io.UnsupportedOperation is an OSError: keep it apart
+                    # from the decoder's own IOError): read it the ordinary way
+                    arr = util.read_signal(io.BytesIO(blob), dtype=dtype, force_as="sph")
             except IOError:
                 return ("err", "IOError")
             except ImplTimeout:
